@@ -8,6 +8,11 @@ Model of tonic's graceful shutdown (C13): the transition system of
     connection future, the `max_connection_age` sleep and the `Fuse`d `watcher.changed()`, the
     last two calling `conn.graceful_shutdown()`; `drop(watcher)` when the connection future ended;
   * `Fuse`                    — a future that yields `Ready` once and `Pending` ever after.
+and of `tonic/src/transport/server/io_stream.rs`
+  * `ServerIoStream`          — with a `TlsAcceptor`: streams taken from the inner incoming go into
+    a `JoinSet` of handshake tasks; a finished handshake is yielded to the accept loop, a failed
+    one is logged; the end of the inner incoming ends the stream at once (`SelectOutput::Done`),
+    abandoning handshakes still in the set.  Polled only from the accept loop.
 
 One label = one atomic step of one task.  Labels are of three kinds:
   * environment (what peers, the handler code and the user of `Server` do),
@@ -15,7 +20,9 @@ One label = one atomic step of one task.  Labels are of three kinds:
   * hyper/h2 (handshake, second GOAWAY, stream accepted, frames written/received, the connection
     future resolving).  Their guards ARE hyper's graceful-shutdown contract as tonic relies on it;
     they are trusted (exercised by the correspondence runs only).  The one that carries the
-    property is `hyperConnDone`, the guard of `connBreak`.
+    property is `hyperConnDone`, the guard of `connBreak`.  They are collected in one object,
+    `Hyper` / `hyperModel`, and `stepH H` is the same system over an arbitrary `H`; what `H` has to
+    satisfy is `HyperGracefulContract` (Lemmas/ShutdownContract).
 
 `cfgBiased` selects between the code as found (`false`: `select!` polls its two branches in random
 order, so a ready connection can win over a ready signal) and the repaired code (`true`: `biased;`,
@@ -120,7 +127,9 @@ def Conn.newTls (pending afterSig go bad : Bool) : Conn :=
 
 /-- hyper's connection future resolves: the peer left, or graceful shutdown was requested and
 either the handshake had not completed, or the final GOAWAY is out and every accepted stream has
-been answered completely and flushed.  TRUSTED: this is hyper's graceful-shutdown contract. -/
+been answered completely and flushed.  TRUSTED: this is hyper's graceful-shutdown contract
+(`HyperSafety.connDone_only` / `HyperLiveness.connDone_when`); clause (a) of C13 — no accepted call
+is dropped — is this guard, not something derived from tonic's code. -/
 def hyperConnDone (cn : Conn) : Bool :=
   cn.peerGone || (cn.graceful && !cn.hs) || (cn.final && cn.calls.all Call.settled)
 
@@ -346,6 +355,62 @@ def step (s : State) : Label → Option State
     updCall s c j
       (fun cn k => !cn.closed && !cn.peerGone && !k.cancelled && decide (k.recv < k.sent.length))
       (fun k => { k with recv := k.recv + 1 })
+
+/-- Everything the transition system takes from hyper / h2 on trust, as ONE object: the enabling
+conditions of the five steps that are hyper's to take.  `step` is the transition system with
+`hyperModel` (below) plugged in; `stepH H` is the same system over an arbitrary `H`.  What a real
+hyper has to satisfy for the theorems to apply is `HyperGracefulContract H`
+(Lemmas/ShutdownContract). -/
+structure Hyper where
+  /-- the connection future (`Connection` of `serve_connection`) resolves -/
+  connDone : Conn → Bool
+  /-- the HTTP/2 handshake completes (hyper's connection state becomes `Serving`) -/
+  handshake : Conn → Bool
+  /-- the second, final GOAWAY of a graceful shutdown goes out: new streams are refused from now on -/
+  finalGoaway : Conn → Bool
+  /-- a new stream is accepted and the service (tonic's router, the handler) is called -/
+  acceptStream : Conn → Call → Bool
+  /-- the next item written to a stream reaches the caller -/
+  deliver : Conn → Call → Bool
+
+/-- hyper as the model has it: the guards written out in `step`. -/
+def hyperModel : Hyper where
+  connDone := hyperConnDone
+  handshake cn := !cn.hs && !cn.graceful && !cn.peerGone
+  finalGoaway cn := cn.hs && cn.graceful && !cn.final
+  acceptStream cn k := cn.hs && !cn.final && !cn.peerGone && !k.started && !k.cancelled
+  deliver cn k := !cn.peerGone && !k.cancelled && decide (k.recv < k.sent.length)
+
+/-- The transition system over an arbitrary hyper: the five hyper steps are enabled by `H` (on an
+accepted connection that the task has not left yet), every other step is `step`'s. -/
+def stepH (H : Hyper) (s : State) : Label → Option State
+  | .connBreak c =>
+    updConn s c (fun cn => cn.accepted && !cn.closed && H.connDone cn)
+      (fun cn => { cn with closed := true })
+  | .hsDone c =>
+    updConn s c (fun cn => cn.accepted && !cn.closed && H.handshake cn)
+      (fun cn => { cn with hs := true })
+  | .final c =>
+    updConn s c (fun cn => cn.accepted && !cn.closed && H.finalGoaway cn)
+      (fun cn => { cn with final := true })
+  | .callStart c j =>
+    updCall s c j (fun cn k => cn.accepted && !cn.closed && H.acceptStream cn k)
+      (fun k => { k with started := true })
+  | .deliver c j =>
+    updCall s c j (fun cn k => !cn.closed && H.deliver cn k)
+      (fun k => { k with recv := k.recv + 1 })
+  | l => step s l
+
+def runH (H : Hyper) (s : State) : List Label → Option State
+  | [] => some s
+  | l :: ls => match stepH H s l with
+    | some s' => runH H s' ls
+    | none => none
+
+inductive ReachableH (H : Hyper) (g b a : Bool) : State → Prop
+  | init : ReachableH H g b a (init g b a)
+  | step {s s' : State} (l : Label) :
+      ReachableH H g b a s → stepH H s l = some s' → ReachableH H g b a s'
 
 /-- Execute a sequence of labels; `none` if some label was not enabled. -/
 def run (s : State) : List Label → Option State
